@@ -515,7 +515,7 @@ pub fn gen_input(t: &mut Tape) -> Vec<u8> {
             3 => out.extend_from_slice(format!("cr\rmid{}", i).as_bytes()),
             6 => out.extend_from_slice(
                 (*t.pick(&[
-                    "05", "1e3", "  42", "-0", "0x10", "true", "null", "mysterious", "3.50", "+7",
+                    "05", "1e3", "  42", "-0", "0x10", "true", "null", "mysterious", "3.50", "+7", "21", "7.5", "-3", "0", "inf", "NaN",
                     "nothing", "\"quoted\"", "1,2",
                 ]))
                 .as_bytes(),
